@@ -78,6 +78,25 @@ MUTATING = {'REMOVE_FILE', 'REMOVE_DIR', 'REMOVE_TREE', 'CHMOD', 'MKDIR', 'WRITE
 REMOVING = {'REMOVE_FILE', 'REMOVE_DIR', 'REMOVE_TREE'}
 
 
+GROUP = {'REMOVE_FILE': 'REMOVE', 'REMOVE_DIR': 'REMOVE', 'REMOVE_TREE': 'REMOVE'}
+
+
+def canon(v):
+    """value with call-site identities removed (for comparing values computed at different sites)"""
+    if not isinstance(v, tuple) or not v:
+        return v
+    if v[0] == 'call' and len(v) == 4:
+        return ('call', v[1], tuple(canon(x) for x in v[2]))
+    if v[0] == 'icall' and len(v) == 4:
+        return ('icall', canon(v[1]), tuple(canon(x) for x in v[2]))
+    return tuple(canon(x) if isinstance(x, tuple) else x for x in v)
+
+
+def eff_key(e):
+    return (GROUP.get(e.kind, e.kind), canon(e.path) if e.path is not None else None, e.forall is not None,
+            e.call.name if (e.call is not None and e.kind not in GROUP) else None)
+
+
 def vocab_lookup(call, vocab=VOCAB):
     if call.indirect:
         return None
@@ -316,9 +335,29 @@ class Effects:
             return [Eff('RECURSION', None, None, chain, mode == 'must')] if fn.path in _stack else []
         _stack = _stack + (fn.path,)
         out = []
+        if mode == 'must' and site_bbs is None:
+            # effects common to every success site (a call dominating all sites is the special case;
+            # alternatives such as "unlink the symlink | empty and rmdir" agree on REMOVE(path))
+            per_site = []
+            for st in self.sites(fn):
+                effs = []
+                for c, forall in self.must_calls(fn, [st.bb]):
+                    self._expand_call(fn, c, forall, 'must', mapping, chain, _stack, effs)
+                per_site.append(effs)
+            if not per_site:
+                return []
+            common = None
+            for effs in per_site:
+                ks = {eff_key(e) for e in effs}
+                common = ks if common is None else (common & ks)
+            seen = set()
+            for e in per_site[0]:
+                k = eff_key(e)
+                if k in common and (k not in seen or e.kind not in GROUP):
+                    out.append(e)
+                    seen.add(k)
+            return out
         if mode == 'must':
-            if site_bbs is None:
-                site_bbs = [s.bb for s in self.sites(fn)]
             calls = self.must_calls(fn, site_bbs)
         else:
             calls = [(c, None) for c in self.may_calls(fn, site_bbs)]
